@@ -373,9 +373,21 @@ def sv_tok(op) -> str:
         return "as:" + S(op[1])
     if n == "al":
         return "al:" + L(op[1])
-    if n == "hs":
-        return "hs:" + S(op[1])
+    if n in ("hs", "hh"):
+        return f"{n}:" + S(op[1])
     return n
+
+
+def held_tok(op):
+    """a direct header edit while the view object is kept (not fetched again)"""
+    return "hh:" + S(op[1]) if op[0] == "hh" else "hhd"
+
+
+def held_edit(r, name, op):
+    if op[0] == "hh":
+        r.headers[name] = op[1]
+    else:
+        del r.headers[name]
 
 
 def _sv_obs(r, name, view) -> str:
@@ -393,6 +405,7 @@ def run_sv(chk, attr, init, ops, oracle=True) -> str:
     view = getattr(r, attr)
     obs = [_sv_obs(r, name, view)]
     dirty = False            # the live view was changed since it was last read from the header
+    stale = False
     ok = oracle
     def ci_dup(v):
         """the items themselves hold two entries equal up to letter case (the known C08 findings)"""
@@ -414,16 +427,21 @@ def run_sv(chk, attr, init, ops, oracle=True) -> str:
                 r.headers[name] = op[1]
             elif op[0] == "hd":
                 del r.headers[name]
+            elif op[0] in ("hh", "hhd"):
+                held_edit(r, name, op)
             res = "N"
         except Exception as e:  # noqa: BLE001
             res = exn_name(e)
-        if op[0] != "v":
+        if op[0] in ("hh", "hhd"):
+            stale = True            # the held view no longer describes the header, until it writes itself back
+        elif op[0] != "v":
             view = getattr(r, attr)
-            dirty = False
+            dirty = stale = False
         elif list(view._headers) != before:
             dirty = True
+            stale = False
         obs.append(res + "|" + _sv_obs(r, name, view))
-        if not ok:
+        if not ok or stale:
             continue
         if res == "EValueError" and any("\n" in x or "\r" in x for x in view._headers):
             ok = False          # an item with CR/LF: the header store refuses it (C05); outside the domain
@@ -467,7 +485,9 @@ def sv_alphabet(full: bool):
         ops.append(("v", ("del", i)))
         for v in (["Accept", "b", "B"] if full else ["Cookie"]):
             ops.append(("v", ("set", i, v)))
-    ops += [("an",), ("hd",)]
+    ops += [("an",), ("hd",), ("hhd",), ("hh", "b, Cookie")]
+    if full:
+        ops.append(("hh", "Accept"))
     for s in (["Accept", "a,b", "", '"x y", b'] if full else ["a,b"]):
         ops += [("as", s), ("hs", s)]
     for l in ([(), ("Accept", "x y"), ("b",)] if full else [("Accept", "Cookie")]):
@@ -487,10 +507,12 @@ def sv_random_op(rng):
         elif o[0] == "set":
             o = ("set", o[1], rng.choice(items))
         return ("v", o)
-    if r < 0.8:
+    if r < 0.78:
         return ("an",)
-    if r < 0.85:
+    if r < 0.81:
         return ("hd",)
+    if r < 0.85:
+        return rng.choice([("hhd",), ("hh", "Accept"), ("hh", "a, b"), ("hh", '"x y", Cookie')])
     if r < 0.9:
         return ("as", rng.choice(["Accept", "a, b", "a,b , c", '"x y", Cookie', "", "a, A", " lead, trail "]))
     if r < 0.95:
@@ -501,6 +523,8 @@ def sv_random_op(rng):
 # ====================================================================== harness: cache_control
 
 def cc_tok(op) -> str:
+    if op[0] in ("hh", "hhd"):
+        return held_tok(op)
     if op[0] == "sa":
         return f"sa:{S(op[1])}:{ccv(op[2])}"
     if op[0] == "da":
@@ -552,8 +576,14 @@ def run_cc(chk, init, ops, oracle=True) -> str:
     obs = [_cc_obs(r, cc, attrs)]
     ok = oracle
     dirty = False
+    stale = False
     for n, op in enumerate(ops):
         before = dict(cc)
+        if op[0] in ("hh", "hhd"):
+            held_edit(r, "Cache-Control", op)
+            stale = True
+            obs.append("N|" + _cc_obs(r, cc, attrs))
+            continue
         try:
             if op[0] == "sa":
                 setattr(cc, op[1], op[2])
@@ -567,8 +597,9 @@ def run_cc(chk, init, ops, oracle=True) -> str:
             res = exn_name(e)
         if dict(cc) != before or list(cc) != list(before):
             dirty = True
+            stale = False
         obs.append(res + "|" + _cc_obs(r, cc, attrs))
-        if not ok:
+        if not ok or stale:
             continue
         if not _cc_domain(cc):
             ok = False
@@ -647,7 +678,7 @@ def cc_alphabet(full: bool):
         ops += [("di", k), ("pop", k)]
         if full:
             ops += [("popd", k, "d"), ("sd", k, "9"), ("sd", k, None)]
-    ops += [("clear",), ("popitem",), ("up", (("x", "1"), ("public", None)))]
+    ops += [("clear",), ("popitem",), ("up", (("x", "1"), ("public", None))), ("hh", "max-age=1, public"), ("hhd",)]
     return ops
 
 
@@ -656,6 +687,8 @@ def cc_random_op(rng):
     keys = [v[0] for v in _prop_info().values()] + ["x", "ext-key", "k.1", "bad key", ""]
     vals = [True, False, None, 0, 1, 3600, -5, "7", "007", "-3", "abc", "", "x y", 'q"t', "a,b", "a\\b", "é"]
     r = rng.random()
+    if r < 0.06:
+        return rng.choice([("hhd",), ("hh", "no-store"), ("hh", 'private="a, b", max-age=5')])
     if r < 0.5:
         return ("sa", rng.choice(attrs), rng.choice(vals))
     if r < 0.6:
@@ -674,6 +707,8 @@ def cc_random_op(rng):
 # ====================================================================== harness: content_security_policy
 
 def csp_tok(op) -> str:
+    if op[0] in ("hh", "hhd"):
+        return held_tok(op)
     if op[0] == "sa":
         return f"sa:{S(op[1])}:{ov(op[2])}"
     if op[0] == "da":
@@ -711,8 +746,14 @@ def run_csp(chk, init, ops, oracle=True) -> str:
     obs = [_csp_obs(r, c, attrs)]
     ok = oracle
     dirty = False
+    stale = False
     for n, op in enumerate(ops):
         before = dict(c)
+        if op[0] in ("hh", "hhd"):
+            held_edit(r, CSP_NAME, op)
+            stale = True
+            obs.append("N|" + _csp_obs(r, c, attrs))
+            continue
         try:
             if op[0] == "sa":
                 setattr(c, op[1], op[2])
@@ -726,8 +767,9 @@ def run_csp(chk, init, ops, oracle=True) -> str:
             res = exn_name(e)
         if dict(c) != before or list(c) != list(before):
             dirty = True
+            stale = False
         obs.append(res + "|" + _csp_obs(r, c, attrs))
-        if not ok:
+        if not ok or stale:
             continue
         if not _csp_domain(c):
             ok = False          # empty values / values with a semicolon do not re-parse: stated domain of the CSP codec
@@ -761,7 +803,7 @@ def csp_alphabet(full: bool):
         ops += [("si", k, "v w"), ("di", k), ("pop", k)]
         if full:
             ops += [("popd", k, "d"), ("sd", k, "9")]
-    ops += [("clear",), ("popitem",), ("up", (("x", "1"), ("img-src", "*")))]
+    ops += [("clear",), ("popitem",), ("up", (("x", "1"), ("img-src", "*"))), ("hh", "img-src *; x y"), ("hhd",)]
     return ops
 
 
@@ -769,6 +811,8 @@ def csp_random_op(rng):
     attrs = _csp_attrs()
     vals = [None, "'self'", "a b", "*", "https://x.example", "", "x; y", " lead", "é"]
     r = rng.random()
+    if r < 0.06:
+        return rng.choice([("hhd",), ("hh", "default-src 'none'"), ("hh", "img-src *; script-src a b")])
     if r < 0.5:
         return ("sa", rng.choice(attrs), rng.choice(vals))
     if r < 0.6:
@@ -787,6 +831,8 @@ def csp_random_op(rng):
 # ====================================================================== harness: content_range
 
 def cr_tok(op) -> str:
+    if op[0] in ("hh", "hhd"):
+        return held_tok(op)
     def oi(x):
         return "n" if x is None else str(x)
     if op[0] == "set":
@@ -812,6 +858,10 @@ def run_cr(chk, init, ops, oracle=True) -> str:
     obs = [_cr_obs(r, c)]
     ok = oracle
     for n, op in enumerate(ops):
+        if op[0] in ("hh", "hhd"):
+            held_edit(r, "Content-Range", op)
+            obs.append("N|" + _cr_obs(r, c))
+            continue
         try:
             if op[0] == "set":
                 c.set(op[1], op[2], op[3], op[4])
@@ -851,7 +901,7 @@ CR_INITS = [(), (("Content-Range", "bytes 0-9/100"), ("X", "1")), (("content-ran
 
 
 def cr_alphabet():
-    ops = [("unset",)]
+    ops = [("unset",), ("hh", "bytes 1-2/3"), ("hh", "bytes"), ("hhd",)]
     for s, e, l in [(None, None, None), (None, None, 10), (0, 5, None), (0, 5, 10), (5, 6, 6), (3, 2, 10), (0, 5, 3), (None, 4, None), (-1, 4, 10)]:
         for u in ("bytes", "items", None):
             ops.append(("set", s, e, l, u))
@@ -866,6 +916,8 @@ def cr_alphabet():
 # ====================================================================== harness: www_authenticate
 
 def wa_tok(op) -> str:
+    if op[0] in ("hh", "hhd"):
+        return held_tok(op)
     n = op[0]
     if n in ("item", "attr"):
         return f"{n}:{S(op[1])}:{ov(op[2])}"
@@ -903,8 +955,14 @@ def run_wa(chk, init, ops, oracle=True) -> str:
     obs = [_wa_obs(r, w)]
     ok = oracle
     dirty = False
+    stale = False
     for n, op in enumerate(ops):
         before = (w.type, w.token, dict(w.parameters))
+        if op[0] in ("hh", "hhd"):
+            held_edit(r, "WWW-Authenticate", op)
+            stale = True
+            obs.append("N|" + _wa_obs(r, w))
+            continue
         try:
             k = op[0]
             if k == "item":
@@ -932,8 +990,9 @@ def run_wa(chk, init, ops, oracle=True) -> str:
         now = (w.type, w.token, dict(w.parameters))
         if now != before:
             dirty = True
+            stale = False
         obs.append(res + "|" + _wa_obs(r, w))
-        if not ok:
+        if not ok or stale:
             continue
         if not _wa_domain(w):
             ok = False
@@ -974,7 +1033,8 @@ def wa_alphabet(full: bool):
         ops.append(("token", t))
     for d in ([(("realm", "x"),), (("nonce", "n"), ("qop", "auth")), ()] if full else [(("realm", "x"),)]):
         ops.append(("params", d))
-    ops += [("p", ("clear",)), ("p", ("popitem",)), ("p", ("up", (("realm", "u"), ("charset", "UTF-8"))))]
+    ops += [("p", ("clear",)), ("p", ("popitem",)), ("p", ("up", (("realm", "u"), ("charset", "UTF-8")))),
+            ("hh", 'Basic realm="z"'), ("hh", "Bearer t0k"), ("hhd",)]
     return ops
 
 
@@ -982,6 +1042,8 @@ def wa_random_op(rng):
     keys = ["realm", "nonce", "qop", "x-ext", "charset", "opaque", "stale"]
     vals = ["x", "a b", "auth,auth-int", "UTF-8", 'q"t', "a\\b", "", None]
     r = rng.random()
+    if r < 0.06:
+        return rng.choice([("hhd",), ("hh", 'Digest realm="z", nonce=n'), ("hh", "Bearer t0k"), ("hh", "Negotiate")])
     if r < 0.2:
         return ("item", rng.choice(keys), rng.choice(vals))
     if r < 0.35:
@@ -1185,35 +1247,104 @@ def oracle_www_authenticate(chk, rng, n):
 
 
 def oracle_mimetype_params(chk, rng, n):
-    from werkzeug.http import dump_options_header
+    """one held mimetype_params view, interleaved with changes of the media type behind its back (response.mimetype,
+    response.content_type, a direct Content-Type edit): a mutation of the view writes the parameters next to the
+    response's current media type, and re-reading the property gives the held view's parameters"""
+    from werkzeug.http import dump_options_header, parse_options_header
     for i in range(n):
         r = new_response([("Content-Type", rng.choice(["text/html; charset=utf-8", "application/json", 'multipart/form-data; boundary="a b"']))])
         d = r.mimetype_params
         hist = []
         dirty = False
-        for _ in range(rng.randint(1, 6)):
+        for _ in range(rng.randint(1, 8)):
+            k = rng.random()
+            if k < 0.3:
+                kind = rng.choice(["mimetype", "content_type", "header", "refetch"])
+                if kind == "mimetype":
+                    v = rng.choice(["application/json", "text/csv", "image/png"])
+                    r.mimetype = v
+                elif kind == "content_type":
+                    v = rng.choice(["multipart/related; boundary=abc", "text/plain", "application/xml; charset=latin1"])
+                    r.content_type = v
+                elif kind == "header":
+                    v = rng.choice(["text/csv; charset=utf-8", "application/octet-stream"])
+                    r.headers["Content-Type"] = v
+                else:
+                    v = None
+                    d = r.mimetype_params
+                hist.append((kind, v))
+                dirty = False
+                continue
             op = rng.choice([("si", rng.choice(["charset", "boundary", "x"]), rng.choice(["utf-8", "a b", 'q"t', "latin1"])),
                              ("di", rng.choice(["charset", "boundary"])), ("pop", "charset"), ("clear",),
                              ("up", (("x", "1"), ("charset", "ascii"))), ("sd", "y", "2")])
+            want_mt = r.mimetype          # the media type of the response just before the view is used
             before = dict(d)
             try:
                 dop_apply(d, op)
             except KeyError:
                 pass
             hist.append(op)
-            dirty = dirty or dict(d) != before
+            changed = dict(d) != before
+            dirty = dirty or changed
+            if not dirty:
+                continue
             rr = r.mimetype_params
             text = r.headers.get("Content-Type")
-            if dict(rr) != dict(d) or (dirty and text != dump_options_header(r.mimetype, d)):
-                chk.fail("mimetype-params-drift", f"after {op!r}: header {text!r}, view {dict(d)!r}, re-read {dict(rr)!r}",
-                         {"kind": "mimetype_params", "history": hist})
+            if r.mimetype != want_mt or dict(rr) != dict(d) or text != dump_options_header(want_mt, d):
+                chk.fail("mimetype-params-drift", f"after {hist!r}: Content-Type {text!r} (mimetype {r.mimetype!r}), the held view {dict(d)!r} next to the "
+                         f"current media type {want_mt!r} serialises to {dump_options_header(want_mt, d)!r}; re-read params {dict(rr)!r}",
+                         {"kind": "mimetype_params", "history": [list(h) for h in hist]})
                 break
         chk.case(("mimetype_params", i, repr(hist)), nontrivial=True)
-    chk.count("mimetype_params(oracle only)", n)
+    chk.count("mimetype_params(oracle only, held view)", n)
+
+
+def _tzs():
+    """time zones for the date-valued properties: fixed offsets, and zero-offset zones that are not the timezone.utc object"""
+    from datetime import timedelta, timezone, tzinfo
+
+    class ZeroOffset(tzinfo):          # like dateutil.tz.tzutc / pytz.utc
+        def utcoffset(self, dt):
+            return timedelta(0)
+
+        def dst(self, dt):
+            return timedelta(0)
+
+        def tzname(self, dt):
+            return "UTC"
+
+        def __repr__(self):
+            return "ZeroOffset()"
+
+    class Shifting(tzinfo):            # offset depends on the date, zero in winter (like Europe/London)
+        def utcoffset(self, dt):
+            return timedelta(hours=1) if dt is not None and 4 <= dt.month <= 9 else timedelta(0)
+
+        def dst(self, dt):
+            return self.utcoffset(dt)
+
+        def tzname(self, dt):
+            return "SHIFT"
+
+        def __repr__(self):
+            return "Shifting()"
+    out = [timezone(timedelta(hours=2)), timezone(timedelta(hours=-8)), timezone(timedelta(hours=5, minutes=30)),
+           timezone(timedelta(0), "GMT"), ZeroOffset(), Shifting()]
+    try:
+        from zoneinfo import ZoneInfo
+        out += [ZoneInfo("UTC"), ZoneInfo("Europe/London"), ZoneInfo("America/New_York")]
+    except Exception:  # noqa: BLE001  (no tz database available offline)
+        pass
+    return out
+
+
+TZS = _tzs()
 
 
 def oracle_scalars(chk, rng, n):
     from datetime import datetime, timedelta, timezone
+    from email.utils import format_datetime
     from werkzeug.datastructures import HeaderSet
     from werkzeug.http import COEP, COOP, http_date
     for i in range(n):
@@ -1221,7 +1352,7 @@ def oracle_scalars(chk, rng, n):
         case = {"kind": "scalar"}
 
         def bad(what):
-            chk.fail("scalar-drift", what, case)
+            chk.fail("scalar-drift", what, dict(case, assignment=what))
         # integers
         z = rng.choice([0, 1, 42, 10 ** 12])
         r.content_length = z
@@ -1245,12 +1376,18 @@ def oracle_scalars(chk, rng, n):
         t = datetime(2000 + rng.randint(0, 40), rng.randint(1, 12), rng.randint(1, 28), rng.randint(0, 23), rng.randint(0, 59),
                      rng.randint(0, 59), rng.choice([0, 123456]))
         for attr, hdr in (("date", "Date"), ("expires", "Expires"), ("last_modified", "Last-Modified"), ("retry_after", "Retry-After")):
-            tv = rng.choice([t, t.replace(tzinfo=timezone.utc), t.replace(tzinfo=timezone(timedelta(hours=2)))])
-            setattr(r, attr, tv)
-            utc = (tv if tv.tzinfo else tv.replace(tzinfo=timezone.utc)).astimezone(timezone.utc).replace(microsecond=0)
-            got = getattr(r, attr)
-            if r.headers.get(hdr) != http_date(tv) or got != utc or got.tzinfo is None or got.microsecond != 0:
-                bad(f"{attr} = {tv!r} reads back {got!r}, header {r.headers.get(hdr)!r}")
+            for tz in [None, timezone.utc] + (TZS if i < 2 else rng.sample(TZS, 3)):
+                tv = t.replace(tzinfo=tz)
+                utc = (tv if tv.tzinfo else tv.replace(tzinfo=timezone.utc)).astimezone(timezone.utc).replace(microsecond=0)
+                text = format_datetime(utc, usegmt=True)
+                try:
+                    setattr(r, attr, tv)
+                    got = getattr(r, attr)
+                except Exception as e:  # noqa: BLE001
+                    bad(f"{attr} = {tv!r} raised {type(e).__name__}: {e}")
+                    continue
+                if r.headers.get(hdr) != text or got != utc or got.tzinfo is None or got.utcoffset() != timedelta(0) or got.microsecond != 0:
+                    bad(f"{attr} = {tv!r} reads back {got!r}, header {r.headers.get(hdr)!r}, expected {text!r}")
         r.retry_after = 120
         if r.headers.get("Retry-After") != "120":
             bad("retry_after = 120")
